@@ -1,5 +1,6 @@
 import RockitModel.Model.Validate
 import Mathlib.Tactic.Basic
+import RockitModel.Generated.Clone
 /-!
 # C20 — ill-posed specifications are rejected, never silently transcribed
 -/
@@ -40,5 +41,13 @@ theorem declaration_faults_early (f : Fault) (hf : f.guard.2 = .declaration) :
   cases f <;> first | decide | (simp [Fault.guard] at hf)
 
 example : attempt guards [.missingDerivative] = .rejected .transcription := by decide
+
+
+/-! ### a missing parameter value is missing per stage -/
+/-- `Stage.clone` as it is now gives every instance of a template its own table of parameter values, so that a value given to a sibling
+(or to the template afterwards) does not hide a missing one -/
+theorem parameter_values_are_per_stage :
+    (Rockit.Generated.cloneTable.filter (fun e => e.1 == "_param_vals")).all (fun e => e.2.1 == .copy || e.2.1 == .deepcopy) = true ∧
+    (Rockit.Generated.cloneTable.filter (fun e => e.1 == "_param_vals")).length = 1 := by decide
 
 end Rockit.C20
